@@ -19,8 +19,13 @@ for sd in args[1:]:
         print(name, 'PATCH DOES NOT APPLY')
         continue
     out = '/var/tmp/tau-seed-out/' + name
-    shutil.rmtree(out, ignore_errors=True)
-    os.makedirs(out)
+    prev = {}
+    if os.environ.get('SEED_MERGE') and os.path.exists(os.path.join(out, 'result.json')):
+        # re-run of some cells with newer checks: the other cells of this seed are kept
+        prev = json.load(open(os.path.join(out, 'result.json')))
+    else:
+        shutil.rmtree(out, ignore_errors=True)
+    os.makedirs(out, exist_ok=True)
     env = dict(os.environ, TAU_REPO=wt, TAU_VERIF_CACHE='/var/tmp/tau-verif-cache-seed-' + prefix + tag, TAU_VERIF_OUT=out,
                VERIF_JOBS=os.environ.get('VERIF_JOBS', '7'))
     sel = [tag if c == 'own' else c for c in checks]
@@ -32,6 +37,7 @@ for sd in args[1:]:
         if line[:1] == 'C' and ' rc=' in line:
             pid = line.split()[0]
             res[pid] = int(line.split('rc=')[1].split()[0])
+    res = dict(prev, **res)
     json.dump(res, open(os.path.join(out, 'result.json'), 'w'))
     caught = sorted(p for p, rc in res.items() if rc == 1)
     incon = sorted(p for p, rc in res.items() if rc == 2)
